@@ -1,2 +1,3 @@
 SPECIFICATION ClassesOnly
 CHECK_DEADLOCK FALSE
+CONSTANT MaxCalls = 3
